@@ -185,6 +185,15 @@ def _judge(ctx, fbs, sups, what):
         elif got['label'] == 'set_correct_no_errors':
             why = 'default shown although an eligible feedback exists'
         ctx.fail({'symptom': 'wrong feedback delivered', 'why': why}, case=what, expected=want, got=got)
+    # resolving again must deliver the same feedback
+    try:
+        ctx.step('simple.resolve (again)')
+        r2 = simple.resolve()
+        got2 = dict(label=r2.label, title=r2.title, message=r2.message, category=r2.category)
+        if got2 != got:
+            ctx.fail({'symptom': 'second resolve of the same report differs'}, case=what, first=got, second=got2)
+    except Exception as e:
+        ctx.fail({'symptom': 'second resolve raised', 'exception': type(e).__name__}, case=what, message=str(e)[:200])
     # full resolver: nothing ineligible among the used feedback
     try:
         ctx.step('full.resolve')
